@@ -40,6 +40,9 @@ def worker_init():
 # ---- strategies ------------------------------------------------------------------------------------------------------
 OMIT = "<omit>"
 _UNKNOWN = ["xx", "Bar", "volume", "relative %", "gram", ""]
+_NEAR = {"pressure": ["relative %", "Absolute", "rel", "relative%%"],
+         "loading": ["volume", "volume", "Molar", "volume_gaz", "vol_gas"],
+         "material": ["volume_gas", "volume_liquid", "Mass", "fraction"]}
 _ALL_UNITS = sorted(set(ru.PRESSURE_PA) | set(ru.MOLAR_MOL) | set(ru.MASS_G) | set(ru.VOLUME_CM3))
 
 
@@ -50,10 +53,14 @@ def _arg(valid, other):
 
 
 @st.composite
-def _target(draw, reps, modes):
+def _target(draw, reps, modes, near=()):
     """A (mode, unit) target: mostly coherent (a real representation), sometimes partial / incoherent.
     (explicit selector: nested one_of would let the many-branched 'wild' alternative dominate)"""
-    kind = draw(st.sampled_from(["coherent"] * 9 + ["partial_unit", "partial_mode", "wild"]))
+    kind = draw(st.sampled_from(["coherent"] * 9 + ["partial_unit", "partial_mode", "wild"] + (["near_miss"] if near else [])))
+    if kind == "near_miss":
+        # a name that is valid in ANOTHER slot, an old spelling or another letter case - with a perfectly good unit
+        r = draw(st.sampled_from(reps))
+        return {"mode": draw(st.sampled_from(list(near))), "unit": r[1] if r[1] is not None else OMIT}
     if kind == "wild":
         return {"mode": draw(_arg(list(modes), ["mass", "absolute", "fraction"])), "unit": draw(_arg(_ALL_UNITS, ["K", "°C"]))}
     r = draw(st.sampled_from(reps))
@@ -65,16 +72,16 @@ def _target(draw, reps, modes):
 
 
 def op_strategy():
-    p = _target(ru.P_REPS, ru.PRESSURE_MODES).map(lambda t: dict(op="pressure", **t))
-    l = _target(ru.L_REPS, list(ru.LOADING_BASES)).map(lambda t: dict(op="loading", **t))
-    m = _target(ru.M_REPS, list(ru.MATERIAL_BASES)).map(lambda t: dict(op="material", **t))
+    p = _target(ru.P_REPS, ru.PRESSURE_MODES, _NEAR["pressure"]).map(lambda t: dict(op="pressure", **t))
+    l = _target(ru.L_REPS, list(ru.LOADING_BASES), _NEAR["loading"]).map(lambda t: dict(op="loading", **t))
+    m = _target(ru.M_REPS, list(ru.MATERIAL_BASES), _NEAR["material"]).map(lambda t: dict(op="material", **t))
     t = st.sampled_from(["K", "°C", "°C", "K", "C", "c", "K", "°C", "xx", "Bar", None]).map(
         lambda u: {"op": "temperature", "unit": u})
     conv = st.builds(
         lambda a, b, c: {"op": "convert", "pressure": a, "loading": b, "material": c},
-        st.one_of(st.none(), _target(ru.P_REPS, ru.PRESSURE_MODES)),
-        st.one_of(st.none(), _target(ru.L_REPS, list(ru.LOADING_BASES))),
-        st.one_of(st.none(), _target(ru.M_REPS, list(ru.MATERIAL_BASES))))
+        st.one_of(st.none(), _target(ru.P_REPS, ru.PRESSURE_MODES, _NEAR["pressure"])),
+        st.one_of(st.none(), _target(ru.L_REPS, list(ru.LOADING_BASES), _NEAR["loading"])),
+        st.one_of(st.none(), _target(ru.M_REPS, list(ru.MATERIAL_BASES), _NEAR["material"])))
     read = st.integers(0, 1000).map(lambda k: {"op": "read", "k": k})
     return st.sampled_from(["p", "l", "l", "m", "m", "t", "c", "c", "r"]).flatmap(
         lambda k: {"p": p, "l": l, "m": m, "t": t, "c": conv, "r": read}[k])
